@@ -255,7 +255,7 @@ func runHistory(c *run.Ctx, h []attempt, cc configCase, pending int) {
 			w.Mu.Lock()
 			cur = -1
 			w.Mu.Unlock()
-			if cn := w.Cur(); cn != nil {
+			if cn := w.CurConn(); cn != nil {
 				cn.EndInbound(-1, io.EOF)
 			}
 			d.GrantIfPaused()
